@@ -36,9 +36,19 @@ LEVEL_NOTE = ("modelled, not verified: graph/{nodes,graph,visit,transform,copy,r
 TECHNIQUE = "Lean 4 proof by induction over the topological order of the graph (simulation invariant of the generic Transformer fold) + differential correspondence with the real transforms + symbolic-interpreter oracle"
 LEAN_PROPS = ["EkwVerif.Props.C11"]
 LEAN_DRIVERS = ["C11"]
-RULE = ("corpus of minimised past failures first, then random DAGs (1..9 nodes quick, ..14 thorough): shared sub-expressions, multi-output nodes, exact duplicates incl. permuted input "
+RULE = ("corpus of minimised past failures first, then random DAGs (1..9 nodes quick, ..14 thorough; a few more with a collision cluster): shared sub-expressions, multi-output nodes, exact duplicates incl. permuted input "
         "order and near-duplicates, several sinks incl. non-terminal ones, adversarial names (prefixes/character overlap with parents, "
-        "dots, digits, output names equal to Node attributes, input names equal to callback parameter names); one case = one "
+        "dots, digits, output names equal to Node attributes, input names equal to callback parameter names), node names BUILT FROM other "
+        "nodes' names, output names and input names (<node>.<output>, <node>.0, several dots, a dotted name's prefix that declares the "
+        "rest as an output, names equal to output / input names, equal names of different nodes), name-collision clusters (one dotted "
+        "string split in several ways into node name + output name, so that str(Output) / '<node>.<output>' of different outputs "
+        "coincide) with equal-payload, equal-outputs, equal-input-name consumers on the colliding outputs, and twins of existing nodes "
+        "re-pointed to outputs that render alike; split keys also by role (colliding producers in one part, consumers in others); "
+        "expand: sub-graph node names (sources, inner nodes, leaves, extra sinks) from one pool with the expanded node's input names, "
+        "output names, own name, the outer graph's node names and <node>.<x> forms; input map None / explicit full / partial / empty / "
+        "two sources on one input, independent sources outside the map (also named like an input of the node); output map None / "
+        "explicit / partial / shared leaf / keys that are no outputs; expander answers bare Graph, 3-tuple and (outside the documented "
+        "domain, only counted) 1-/2-tuples; one case = one "
         "transformation (copy, rename, dedup, split, expand, fuse) of one DAG with random parameters. non-trivial = the DAG has >= 3 nodes "
         "and a shared sub-expression, a multi-output node or several sinks; distinct by content hash of (transformation, DAG, parameters)")
 ASSUMPTIONS = [
@@ -958,7 +968,7 @@ def _load_corpus():
 
 
 def correspond(ctx):
-    n = ctx.budget(6000, 60000)
+    n = ctx.budget(8400, 60000)
     nmax = ctx.budget(9, 14)
     cases = _load_corpus()
     for i in range(n):
